@@ -427,7 +427,8 @@ def classify(history, bad):
 
 
 def bfs(ctx, passthrough):
-    depth = ctx.pick(4, 5)
+    # quick: passthrough differs from refusal only in what an unpatched endpoint does - one level less
+    depth = ctx.pick(3 if passthrough else 4, 5)
     W = ctx.workers
     frontier = [()]
     seen = {((), (None, None))}
@@ -481,7 +482,7 @@ def bfs(ctx, passthrough):
 
 
 def run(ctx):
-    ctx.rule = ('E2: level-synchronous BFS over histories of <= %d operations over {add(endpoint, method, result|error|callback, once on/off) '
+    ctx.rule = ('E2: level-synchronous BFS over histories of <= %d operations (quick: 3 with passthrough on) over {add(endpoint, method, result|error|callback, once on/off) '
                 '(16 variants), replace at each valid index, remove(endpoint, method), remove(endpoint), single call positional / named, '
                 'call of an unpatched method, call with request id 0, notification, batch over every ordered method pair, batch with an '
                 'unpatched method} on 2 endpoints x 2 methods, passthrough off and on, the real PjRpcMocker patching a real sync and a '
